@@ -4,7 +4,7 @@
    Layer 2: for calls obeying the discipline every interleaving is linearizable (generic theorem).
    Layer 3: the sequential meaning of the critical sections is what C01-C10 establish. *)
 From Coq Require Import List String Bool.
-From QV.Conc Require Import LockAst LockCheck Linearize.
+From QV.Conc Require Import LockAst LockCheck Linearize Bridge.
 From QV.Gen Require Import LockAst.
 Import ListNotations.
 
@@ -26,6 +26,23 @@ Theorem C13_linearizable : forall (St V : Type) (s0 : St) (progs : list (list (c
   forall i t, nth_error (ths St V c) i = Some t -> outs St V t = seq_outs St V s0 (lin St V c) i.
 Proof. exact linearizable. Qed.
 
+(* the link between the layers: a call whose every execution path is (up to accesses to immutable fields) a path of its
+   translated abstraction - i.e. the translator read the C text faithfully - inherits the discipline `wl` from the checker *)
+Definition realizes (St V : Type) (c : code St V) (body : stmt) : Prop :=
+  forall tr, path St V c tr -> exists tr' o a', exec body (0, false) tr' o a' /\ norm tr' = tr.
+Theorem C13_bridge : forall (St V : Type) (s0 : St) (body : stmt) (c : code St V),
+  well_locked body = true -> realizes St V c body -> wl St V 0 false c.
+Proof. intros St V s0 body c Hw Hr. exact (discipline_bridge St V s0 body c Hw Hr). Qed.
+(* end to end: programs made of calls that realize operations of the checked list are linearizable under every schedule *)
+Theorem C13_end_to_end : forall (St V : Type) (s0 : St) (progs : list (list (code St V))) (sched : list nat),
+  (forall p k, In p progs -> In k p -> exists name body, In (name, body) c13_api /\ realizes St V k body) ->
+  let c := run St V (init St V s0 progs) sched in
+  finished St V c ->
+  st St V c = seq_state St V s0 (lin St V c) /\
+  forall i t, nth_error (ths St V c) i = Some t -> outs St V t = seq_outs St V s0 (lin St V c) i.
+Proof. intros St V s0 progs sched H. apply linearizable. intros p k Hp Hk. destruct (H p k Hp Hk) as (name & body & Hin & Hr).
+  apply (C13_bridge St V s0 body k); [|exact Hr]. pose proof C13_all_well_locked as A. rewrite forallb_forall in A. exact (A _ Hin). Qed.
+
 Example C13_covers : existsb (fun p => String.eqb (fst p) "qvector_addlast") c13_api = true /\
   existsb (fun p => String.eqb (fst p) "qlist_toarray") c13_api = true /\
   existsb (fun p => String.eqb (fst p) "qtreetbl_putobj") c13_api = true /\
@@ -38,3 +55,5 @@ Proof. reflexivity. Qed.
 
 Print Assumptions C13_discipline.
 Print Assumptions C13_linearizable.
+Print Assumptions C13_bridge.
+Print Assumptions C13_end_to_end.
